@@ -1078,6 +1078,10 @@ private:
    /// Since arguments from the environment variable could trigger reading an
    /// argument file, these two states must be managed separately.
    uint8_t                        mReadMode = ReadMode::commandLine;
+   /// Number of argument files that are currently being read (an argument file
+   /// may name a further argument file). Limited, so that a file that names
+   /// itself ends with an exception and not with a stack overflow.
+   int                            mArgFileNesting = 0;
    /// Flag, set when this argument handler object was created by a Groups
    /// object.
    bool                           mUsedByGroup;
